@@ -130,6 +130,14 @@ func c06Satisfies(ctx context.Context, lc *resolve.LocalClient, req string, to r
 	if verr != nil {
 		return false
 	}
+	if from, ok := v.GetAttr(version.DerivedFrom); ok {
+		// a bundled copy stands for that version of the package it derives from: its tags are the registry's
+		orig, oerr := lc.Version(ctx, resolve.VersionKey{PackageKey: c06PK(from), VersionType: resolve.Concrete, Version: to.Version})
+		if oerr != nil {
+			return to.Version == req
+		}
+		v = orig
+	}
 	tags, _ := v.GetAttr(version.Tags)
 	return tags == req || to.Version == req
 }
